@@ -112,8 +112,10 @@ static bool remove_empty_directory(const std::string& path)
     if (ret == 0)
         return true;
 
-    // POSIX allows for either ENOTEMPTY or EEXIST.
-    if (errno != ENOTEMPTY && errno != EEXIST)
+    // POSIX allows for either ENOTEMPTY or EEXIST. Neither is it any trouble if what the path names is not a
+    // directory that could be removed in the first place: "." (EINVAL), a mount point (EBUSY), a symbolic
+    // link (ENOTDIR), or something which is gone already as the path names it twice (ENOENT for "d//f").
+    if (errno != ENOTEMPTY && errno != EEXIST && errno != EINVAL && errno != EBUSY && errno != ENOTDIR && errno != ENOENT)
         throw std::system_error(errno, std::generic_category(), "Unable to remove directory " + path);
 
     return false;
